@@ -33,6 +33,11 @@ VALIDITY = 3600
 MAX_INTERVAL_S = 3
 OPS = {"==": C.ComparisonOperators.EQUAL, "!=": C.ComparisonOperators.NOT_EQUAL}
 DIRS = {"asc": C.OrderingDirection.ASCENDING, "desc": C.OrderingDirection.DESCENDING}
+LOGIC = {"and": C.LogicalOperators.AND, "or": C.LogicalOperators.OR}
+# two-statement filters: S1 true for camA, camB; S2 true for camB, camC (attribute missing in VAMs):
+# camA matches only the first, camC only the second, camB both, vamA neither statement
+S1 = ("header.stationId", "==", 1001)
+S2 = ("cam.generationDeltaTime", "!=", 100)
 CODE = {"consumer": 1, "type": 2, "priority": 3, "filter": 4, "interval": 5, "multiplicity": 6, "order": 7}
 
 # valid subscription variants: (types, filter, notify interval ms | None, multiplicity | None, order)
@@ -53,6 +58,10 @@ VARIANTS = {
     "o2_dd": ((2, 16), None, None, None, (("stationId", "desc"), ("generationDeltaTime", "desc"))),
     "o2_ad": ((2, 16), None, None, None, (("stationId", "asc"), ("generationDeltaTime", "desc"))),
     "o2_da": ((2, 16), None, None, None, (("stationId", "desc"), ("generationDeltaTime", "asc"))),
+    "f2_or": ((2, 16), (S1, "or", S2), None, None, None),
+    "f2_and": ((2, 16), (S1, "and", S2), None, None, None),
+    "f2_or_m2": ((2, 16), (S1, "or", S2), None, 2, (("stationId", "asc"),)),     # multiplicity counts matches of either statement
+    "f2_or_rev": ((2, 16), (S2, "or", S1), 0, 1, None),                          # first statement's attribute missing in VAMs
     # first key present in VAMs only (speedValue is inside the CHOICE tuple of a CAM): CAMs lack it
     "o2_miss": ((2, 16), None, None, None, (("speedValue", "asc"), ("stationId", "desc"))),
 }
@@ -74,6 +83,24 @@ def validation_variants():
 
 
 VALIDATION = validation_variants()
+
+
+def _two(filt):
+    return filt is not None and filt[1] in LOGIC
+
+
+def ref_filter(filt):
+    """Variant filter -> the form of mc.ref.ldm_model.filter_true (the evaluator C13 uses): (s1,) | (s1, 'and'|'or', s2)."""
+    if filt is None:
+        return None
+    return tuple(filt) if _two(filt) else (tuple(filt),)
+
+
+def mk_filter(filt):
+    if filt is None:
+        return None
+    st = [C.FilterStatement(p, OPS[op], v) for (p, op, v) in ((filt[0], filt[2]) if _two(filt) else (filt,))]
+    return C.Filter(st[0], LOGIC[filt[1]], st[1]) if _two(filt) else C.Filter(st[0])
 
 
 class SubsModel:
@@ -157,7 +184,7 @@ class SubsModel:
                 sid = got[1]
                 if not invalid:
                     exp["id_collision"] = any(s.impl_id == sid for s in ref.live())
-                    ref.subs.append(R.Sub(key, app, spec[0], (spec[1],) if spec[1] else None, spec[2], spec[3], spec[4], w.now, sid))
+                    ref.subs.append(R.Sub(key, app, spec[0], ref_filter(spec[1]), spec[2], spec[3], spec[4], w.now, sid))
             w.sub_ids.append(sid)
             w.sub_owner.append(app)
         elif op in ("unsub", "unsub_bad"):
@@ -219,7 +246,7 @@ class SubsModel:
             types, filt, notify, mult, order = VARIANTS[vname]
             if notify == "default":
                 return dict(types=types, defaults=True), (types, None, 1, 1, None), set()
-            kw = dict(types=types, priority=None, filter=C.Filter(C.FilterStatement(filt[0], OPS[filt[1]], filt[2])) if filt else None,
+            kw = dict(types=types, priority=None, filter=mk_filter(filt),
                       notify=None if notify is None else C.TimestampIts(notify), multiplicity=mult,
                       order=None if order is None else tuple(C.OrderTupleValue(a, DIRS[d]) for a, d in order))
             return kw, (types, filt, notify, mult, order), set()
@@ -409,6 +436,10 @@ def parts(tier):
         name="filters_order", setup=base + (("regc", A), ("regc", B)), max_subs=2, max_adds=4 if th else 3, depth=6 if th else 5,
         alphabet=[("sub", A, "f_ne"), ("sub", A, "f_type"), ("sub", A, "f_cam"), ("sub", B, "all"), ("sub", B, "m2"),
                   ("add", "camA"), ("add", "camC"), ("add", "vamA"), ("attend",), ("adv", 1), ("unsub", A, 0)])
+    filter2 = dict(
+        name="two_statement_filter", setup=base + (("regc", A),), max_subs=2, max_adds=4 if th else 3, depth=6 if th else 5,
+        alphabet=[("sub", A, "f2_or"), ("sub", A, "f2_and"), ("sub", A, "f2_or_m2"), ("sub", A, "f2_or_rev"),
+                  ("add", "camA"), ("add", "camB"), ("add", "camC"), ("add", "vamA"), ("attend",)])
     order2 = dict(
         name="two_key_order", setup=base + (("regc", A),), max_subs=2, max_adds=4 if th else 3, depth=6 if th else 5,
         alphabet=[("sub", A, "o2_aa"), ("sub", A, "o2_dd"), ("sub", A, "o2_ad"), ("sub", A, "o2_da"), ("sub", A, "o2_miss"),
@@ -416,7 +447,7 @@ def parts(tier):
     validation = dict(
         name="validation", setup=base + (("add", "camA"),), max_subs=2, max_adds=1, depth=4 if th else 3,
         alphabet=[("regc", A), ("deregc", A), ("attend",), ("adv", 1)] + [("sub", A, v) for v in VALIDATION])
-    return [cadence, isolation, filters, order2, validation]
+    return [cadence, isolation, filters, order2, filter2, validation]
 
 
 def _mk(name, setup, alphabet, max_subs, max_adds, seed):
